@@ -447,9 +447,73 @@ func c08History(r *Rec, hI int, steps int) {
 					r.Fail("C08/vote/revote-not-replaced", fmt.Sprintf("%d stored votes of one voter", n), nil)
 				}
 			}
-		case x < 65: // permission change (never shrinking the electorate below the votes cast: see KF note)
+		case x < 61: // permission change (never shrinking the electorate below the votes cast: see KF note)
 			a := r.Rng.Intn(nAcc)
 			permOp("wl-acct", a, permVote)
+		case x < 65:
+			// a voter LOSES the vote permission while votings are open (whitelist removal or blacklisting), then votes
+			// again: the repeated vote must be rejected and the stored vote must stay. Only when the electorate stays at
+			// least as large as the votes already cast on every undecided proposal (the recorded finding C06/gov-endblock/
+			// more-votes-than-voters is not this property's business).
+			ctx := ctxAt()
+			var holders []int
+			for a := 0; a < nAcc; a++ {
+				if govkeeper.CheckIfAllowedPermission(ctx, k, w.addrs[a], govtypes.PermValue(permVote)) {
+					holders = append(holders, a)
+				}
+			}
+			maxVotes := 0
+			ps, _ := k.GetProposals(ctx)
+			var openIDs []uint64
+			for _, pp := range ps {
+				if pp.Result == govtypes.Pending {
+					if n := len(k.GetProposalVotes(ctx, pp.ProposalId)); n > maxVotes {
+						maxVotes = n
+					}
+					openIDs = append(openIDs, pp.ProposalId)
+				}
+			}
+			if len(holders) < 2 || len(holders)-1 < maxVotes {
+				continue
+			}
+			a := holders[r.Rng.Intn(len(holders))]
+			if a == 0 && r.Rng.Intn(3) != 0 {
+				continue
+			}
+			if r.Rng.Intn(2) == 0 {
+				permOp("rm-wl-acct", a, permVote)
+			} else {
+				permOp("bl-acct", a, permVote)
+			}
+			if len(openIDs) > 0 {
+				ctx = ctxAt()
+				pid := openIDs[r.Rng.Intn(len(openIDs))]
+				var before *govtypes.Vote
+				if v, ok := k.GetVote(ctx, pid, w.addrs[a]); ok {
+					before = &v
+				}
+				opt := govtypes.VoteOption(1 + r.Rng.Intn(4))
+				holds := govkeeper.CheckIfAllowedPermission(ctx, k, w.addrs[a], govtypes.PermValue(permVote))
+				err := withCache(ctx, func(cc sdk.Context) error {
+					_, e := ms.VoteProposal(sdk.WrapSDKContext(cc), govtypes.NewMsgVoteProposal(pid, w.addrs[a], opt, sdk.ZeroDec()))
+					return e
+				})
+				out := "ok"
+				if err != nil {
+					out = "err"
+				}
+				r.Op(fmt.Sprintf("gov vote pid=%d voter=%d opt=%d t=%d", pid, a, int(opt), now), out)
+				r.Count(fmt.Sprintf("vote-after-losing-permission:%s:had-voted=%v", out, before != nil))
+				r.Case(fmt.Sprintf("h%d/revote-after-loss/%d/%d/%d/%s", hI, st, pid, a, out), true)
+				if err == nil && !holds {
+					r.Fail("C08/vote/accepted-without-permission", fmt.Sprintf("account %d lost the vote permission and then voted on proposal %d: accepted (had voted before: %v)", a, pid, before != nil), nil)
+				}
+				if err != nil && before != nil {
+					if v, ok := k.GetVote(ctx, pid, w.addrs[a]); !ok || v.Option != before.Option {
+						r.Fail("C08/vote/rejected-vote-changed-stored-vote", fmt.Sprintf("account %d proposal %d", a, pid), nil)
+					}
+				}
+			}
 		default: // end of block: time moves to just before / at / after the nearest deadline
 			var deadlines []int64
 			for _, p := range props {
@@ -479,6 +543,13 @@ func c08History(r *Rec, hI int, steps int) {
 			out := "ok"
 			if panicked != nil {
 				out = "panic"
+				if strings.Contains(fmt.Sprint(panicked), "more votes than voters") {
+					// the recorded finding of C06 (a voter lost the permission after voting; everybody else voted too): the
+					// block is not produced, nothing was written; this history ends here
+					r.Known("C06/gov-endblock/more-votes-than-voters", fmt.Sprintf("history %d: %v", hI, panicked))
+					r.Count("end:halted-by-known-finding")
+					return
+				}
 			}
 			// contents that failed in this block (observed): tell the model which content values fail now
 			psAfter, _ := k.GetProposals(ctx)
